@@ -13,8 +13,8 @@ from . import wire
 from .core import Batch, Report, parse_answer, is_real_number
 
 SKIP_ERRS = ("overflow", "recursion", "timeout", "memory")
-RANGE_HI = 1e100
-RANGE_LO = 1e-100
+RANGE_HI = 1e250
+RANGE_LO = 1e-250
 
 
 class NumCase:
